@@ -11,8 +11,8 @@ const SPEC: Spec = Spec {
         "refint schoolbook multiplication is trusted; cross-checked against Python int on a transcript slice",
         "x86_64 / 64-bit digits only",
     ],
-    bounds_quick: "M1 Dense(S5,3)^2 + Dense(S8+,2)^2; M2 all 1<=lx<=ly<=100 x 12x12 patterns + squares; M3 lx in {255..259,385,770} x 8 length relations x 12x12 patterns; M4 low/inner zero digits; M5 BigInt sign pairs and scalar forms on the pool; M6 dense LCG digits for every 1<=lx<=ly<=72 x 2x2 members",
-    bounds_thorough: "M1; M2 all 1<=lx<=ly<=400 x 12x12 patterns + squares; M3 lx in {255..262,300,383..386,511..514,767..772,1023..1026,1537..1539,2048,2305,2309..2311} x 8 length relations x 12x12 patterns; M4; M5; M6 up to 160 digits x 6x6 family members",
+    bounds_quick: "M1 Dense(S5,3)^2 + Dense(S8+,2)^2; M2 all 1<=lx<=ly<=100 x 12x12 patterns + squares; M3 lx in {255..259,385,770} x 8 length relations x 12x12 patterns; M4 low/inner zero digits; M5 BigInt sign pairs and scalar forms on the pool; M6 dense LCG digits for every 1<=lx<=ly<=72 x 2x2 members; M7 pool x every 2^k-1, 2^k, 2^k+1 (k<128) as scalar of every width and as big operand",
+    bounds_thorough: "M1; M2 all 1<=lx<=ly<=400 x 12x12 patterns + squares; M3 lx in {255..262,300,383..386,511..514,767..772,1023..1026,1537..1539,2048,2305,2309..2311} x 8 length relations x 12x12 patterns; M4; M5; M6 up to 160 digits x 6x6 family members; M7",
     hang_secs: 120,
     probes: Some(probes),
     max_workers: 16,
@@ -224,6 +224,76 @@ fn body(ctx: &mut Ctx) {
                 mul_pair(ctx, &xd, &yd, &xu, &yu, false);
             }
             ctx.sample(|| "dense LCG operands in the Toom-3 regime: 257x257 ... 1030x1500 digits".to_string());
+        }
+    }
+    // M7: single-digit and power-of-two fast paths: every 2^k, 2^k-1, 2^k+1 (k < 128) as scalar and as a big operand
+    if ctx.space("M7") {
+        let pool = alpha::pool_mags();
+        for (i, ad) in pool.iter().enumerate() {
+            if !ctx.mine(i as u64) {
+                continue;
+            }
+            let (an, au) = (Nat::from_digits(ad), bu(ad));
+            let ai = BigInt::from(au.clone());
+            for k in 0..128u32 {
+                ctx.inner(k as u64);
+                for delta in [-1i32, 0, 1] {
+                    let s: u128 = match delta {
+                        -1 => (1u128 << k) - 1,
+                        0 => 1u128 << k,
+                        _ => (1u128 << k).wrapping_add(1),
+                    };
+                    ctx.case();
+                    if ad.len() >= 2 {
+                        ctx.nontrivial(1);
+                    }
+                    let sn = Nat::from_u128(s);
+                    let want = an.mul(&sn);
+                    let args = || vec![format!("a={}", an.to_hex()), format!("s={:x}", s)];
+                    let su = bu_nat(&sn);
+                    let r = call(ctx, || &au * &su);
+                    expect_nat(ctx, "BigUint &a*&big(s)", &args, r, &want);
+                    let r = call(ctx, || &su * &au);
+                    expect_nat(ctx, "BigUint &big(s)*&a", &args, r, &want);
+                    let r = call(ctx, || &au * s);
+                    expect_nat(ctx, "BigUint &a*u128", &args, r, &want);
+                    let r = call(ctx, || {
+                        let mut x = au.clone();
+                        x *= s;
+                        x
+                    });
+                    expect_nat(ctx, "BigUint a*=u128", &args, r, &want);
+                    let r = call(ctx, || -(&ai) * s);
+                    expect_int(ctx, "BigInt -a*u128", &args, r, &Int::new(true, want.clone()));
+                    if let Ok(s64) = u64::try_from(s) {
+                        let r = call(ctx, || &au * s64);
+                        expect_nat(ctx, "BigUint &a*u64", &args, r, &want);
+                        let r = call(ctx, || s64 * au.clone());
+                        expect_nat(ctx, "BigUint u64*a", &args, r, &want);
+                        let r = call(ctx, || {
+                            let mut x = au.clone();
+                            x *= s64;
+                            x
+                        });
+                        expect_nat(ctx, "BigUint a*=u64", &args, r, &want);
+                        if let Ok(s32) = u32::try_from(s) {
+                            let r = call(ctx, || &au * s32);
+                            expect_nat(ctx, "BigUint &a*u32", &args, r, &want);
+                            let r = call(ctx, || {
+                                let mut x = au.clone();
+                                x *= s32;
+                                x
+                            });
+                            expect_nat(ctx, "BigUint a*=u32", &args, r, &want);
+                        }
+                    }
+                    if let Ok(si) = i128::try_from(s) {
+                        let r = call(ctx, || &ai * -si);
+                        expect_int(ctx, "BigInt &a*-i128", &args, r, &Int::new(true, want.clone()));
+                    }
+                }
+            }
+            ctx.sample(|| format!("a={} x every 2^k-1, 2^k, 2^k+1 (k<128) as u32/u64/u128/i128 scalar and as big operand", an.to_hex()));
         }
     }
     // M4: low zero digits and internal zero digits
